@@ -252,8 +252,8 @@ func (m *c17Monitor) AfterEndBlock(r *Run, ctx sdk.Context, _ abci.ResponseEndBl
 func init() {
 	Register(&PropSpec{
 		ID: "C17", Level: "exploration",
-		Rule: "C01 workload (every cosmos and EVM transaction pays fees at random gas prices) with validator sets of 1-5, commission rates {0, 1%, 50%, 100%}, community tax {0, 2%, 50%, 100%}, epoch reward {0, 1, 1e18, 1.2e20}, mint and distribution identifiers equal or different, several stakers per operator, downtime (zero-power epochs), multi-epoch time jumps; after every BeginBlock/tx/EndBlock: supply changes only by the epoch reward at a mint-epoch end; at a distribution-epoch end the whole fee-collector balance moves to the distribution account and delta(community pool + commissions + staker rewards) equals it; every validator that is allocated something gets F x (1 - tax) x power / total power (powers of the set stored before the block, exact rationals, tolerance of a few 1e-18 truncations) and books portion x commission rate as commission; booked claims never exceed the distribution account; non-trivial = >= 2 distributions of a non-zero amount and >= 1 mint",
-		Assumptions: ledgerAssumptions,
+		Rule: "C01 workload (every cosmos and EVM transaction pays fees at random gas prices) with validator sets of 1-5, commission rates {0, 1%, 50%, 100%}, community tax {0, 2%, 50%, 100%}, epoch reward {0, 1, 1e18, 1.2e20}, mint and distribution identifiers equal or different, several stakers per operator, downtime (validators leaving the set; epochs with zero fees), multi-epoch time jumps; after every BeginBlock/tx/EndBlock: supply changes only by the epoch reward at a mint-epoch end; at a distribution-epoch end the whole fee-collector balance moves to the distribution account and delta(community pool + commissions + staker rewards) equals it; every validator that is allocated something gets F x (1 - tax) x power / total power (powers of the set stored before the block, exact rationals, tolerance of a few 1e-18 truncations) and books portion x commission rate as commission; booked claims never exceed the distribution account; non-trivial = >= 2 distributions of a non-zero amount and >= 1 mint",
+		Assumptions: append([]string{"an epoch with ZERO total voting power is not produced: it means an empty validator set, which the consensus engine does not survive (the stub keeps operator 0 in the set)"}, ledgerAssumptions...),
 		QuickRuns:   500, ThoroughRuns: 8000,
 		GenConfig: func(p *PRNG, tier string) Config {
 			c := SwarmConfig(p, SwarmOpts{EpochSecs: []int64{15, 20, 30}})
